@@ -24,6 +24,10 @@ Proof. reflexivity. Qed.
    [real_next] states as 20 * |n - t| > t *)
 Theorem C10_gen_tolerance : sort_reader_float_literals = [(1, 20)].
 Proof. reflexivity. Qed.
+(* the integer literals of SortReader: f.Slice(0, n) and the clamp
+   `if bytesPerRow < 1 { bytesPerRow = 1 }`, which [real_next] models *)
+Theorem C10_gen_clamp : sort_reader_int_literals = [0; 1; 1].
+Proof. reflexivity. Qed.
 
 (* ---- SortReader: for every upstream script that ends without a failure (any chunking,
         empty reads included), every canary size and spill batch size >= 1, every
@@ -42,22 +46,37 @@ Theorem C10_sort_reader_sorted_perm : forall canary batch oracle s demands,
 Proof. exact sort_reader_sorted_perm. Qed.
 Print Assumptions C10_sort_reader_sorted_perm.
 
-(* the bytes-per-row arithmetic of the code is such an oracle when every run encodes to
-   at least one byte per row ... *)
+(* the bytes-per-row arithmetic of the code (with the clamp of bytesPerRow to 1) is such an
+   oracle for EVERY spill target and every encoded size ... *)
 Theorem C10_real_oracle_ok : forall target batch (size : nat -> nat -> Z),
-  1 <= batch -> (forall i n, (1 <= n)%nat -> Z.of_nat n <= size i n) ->
-  oracle_ok (fun i n => real_next target batch (size i n) n).
+  1 <= batch -> oracle_ok (fun i n => real_next target batch (size i n) n).
 Proof. exact real_oracle_ok. Qed.
-(* ... and divides by zero when a run encodes to less (finding sort-bytes-per-row-zero) *)
-Theorem C10_real_next_div_zero : forall target batch size cur,
-  0 <= size < Z.of_nat cur -> real_next target batch size cur = None.
-Proof. exact real_next_div_zero. Qed.
-Theorem C10_sort_bytes_per_row_zero_refuted :
+(* ... hence the main theorem for the code's own arithmetic, without any guard on sizes *)
+Theorem C10_sort_reader_real_arithmetic : forall canary batch target (size : nat -> nat -> Z) s demands,
+  (1 <= canary)%nat -> (1 <= batch)%nat -> sfin s = SEof ->
+  Forall (fun x => (1 <= x)%nat) demands -> (length (srows s) < length demands)%nat ->
+  let o := run_sort canary batch (fun i n => real_next target (Z.of_nat batch) (size i n) n) s demands in
+  ocreate o = COk /\ final_status (oreads o) = SEof /\
+  ksorted (out_rows (oreads o)) /\ Permutation (out_rows (oreads o)) (srows s) /\
+  oleft o = 0%nat.
+Proof. exact sort_reader_real_arithmetic. Qed.
+Print Assumptions C10_sort_reader_real_arithmetic.
+(* the arithmetic before the fix (no clamp) divided by zero when a run encoded to fewer
+   bytes than rows; where it did not, it agrees with the present one *)
+Theorem C10_real_next_unclamped_div_zero : forall target batch size cur,
+  0 <= size < Z.of_nat cur -> real_next_unclamped target batch size cur = None.
+Proof. exact real_next_unclamped_div_zero. Qed.
+Theorem C10_real_next_unclamped_agrees : forall target batch size cur,
+  (1 <= cur)%nat -> Z.of_nat cur <= size ->
+  real_next_unclamped target batch size cur = real_next target batch size cur.
+Proof. exact real_next_unclamped_agrees. Qed.
+Theorem C10_unclamped_arithmetic_div_zero :
   exists canary batch target size s demands,
     (1 <= canary)%nat /\ (1 <= batch)%nat /\ sfin s = SEof /\
-    ocreate (run_sort canary batch (fun _ n => real_next target (Z.of_nat batch) size n) s demands) = CPanic.
-Proof. exact sort_bytes_per_row_zero_refuted. Qed.
-Print Assumptions C10_sort_bytes_per_row_zero_refuted.
+    ocreate (run_sort canary batch (fun _ n => real_next_unclamped target (Z.of_nat batch) size n) s demands) = CPanic /\
+    ocreate (run_sort canary batch (fun _ n => real_next target (Z.of_nat batch) size n) s demands) = COk.
+Proof. exact unclamped_arithmetic_div_zero. Qed.
+Print Assumptions C10_unclamped_arithmetic_div_zero.
 
 (* ---- NewMergeReader: any number of streams (none, one, many, some empty), each sorted
         and ending without failure: the sorted union.  Stated for what a FrameBuffer
@@ -179,6 +198,11 @@ Theorem C10_reduce_example :
     [2; 2]%nat
   = mkO COk [([(1, 30); (2, 21)], SOk); ([(4, 13)], SEof)] [] 0.
 Proof. exact reduce_example. Qed.
+Theorem C10_compressing_codec_example :
+  run_sort 4 2 (fun _ n => real_next 100 2 3 n)
+    [Rows [(2, 0); (0, 0); (1, 0); (0, 0)]; Rows [(0, 1)]] [3; 3; 3]%nat
+  = mkO COk [([(0, 0); (0, 0); (0, 1)], SOk); ([(1, 0); (2, 0)], SOk); ([], SEof)] [4; 100]%nat 0.
+Proof. exact compressing_codec_example. Qed.
 Theorem C10_error_example :
   ocreate (run_sort 2 1 (fun _ _ => Some 3%nat) [Rows [(3, 1); (1, 2)]; Rows [(0, 0)]; Fail 7] [2]%nat) = CErr 7
   /\ final_status (oreads (run_merge 2 [[Rows [(1, 10)]; Fail 7]; [Rows [(2, 0)]]] [1; 1; 1]%nat)) = SErr 7
